@@ -5,6 +5,7 @@ import typing as t
 from sqlglot import exp, generator
 from sqlglot.generators.hive import HiveGenerator
 from sqlglot.generators.trino import TrinoGenerator
+from sqlglot.jsonpath import ALL_JSON_PATH_PARTS
 
 
 def _is_iceberg_table(properties: exp.Properties) -> bool:
@@ -116,7 +117,13 @@ class AthenaTrinoGenerator(TrinoGenerator):
     }
 
     TRANSFORMS = {
-        **TrinoGenerator.TRANSFORMS,
+        # The transforms of unsupported JSON path parts are removed from TrinoGenerator.TRANSFORMS when the Trino
+        # dialect class is created, which may happen before or after this module is imported: drop them here as well
+        **{
+            k: v
+            for k, v in TrinoGenerator.TRANSFORMS.items()
+            if k not in ALL_JSON_PATH_PARTS or k in TrinoGenerator.SUPPORTED_JSON_PATH_PARTS
+        },
         exp.PartitionedByProperty: _partitioned_by_property_sql,
         exp.LocationProperty: _location_property_sql,
     }
